@@ -389,15 +389,15 @@ def gen_design_spectra(repo, ns):
         if sorted(d) != ['C', 'D', 'E']:
             raise Untranslatable(nm, 0, f"site classes found: {sorted(d)}")
     text = ["-- GENERATED by tools/py2lean.py from eqsig/design_spectra.py (the if/elif tables of c_h_factor and sd_nzs). Do not edit.",
+            "import Mathlib.Data.Real.Basic",
             "", f"namespace EqsigVerif.{ns}.DesignSpectra", "",
-            "variable {α : Type} [Add α] [Sub α] [Mul α] [Div α] [LT α] [DecidableLT α] [BEq α]",
-            "  [OfNat α 0] [OfNat α 2] [OfScientific α]", ""]
+            "/-! real twins (used by the bridge theorems of `Props/C20Gen.lean`); `x ** 0.75` is the abstract `pow34`, `x ** 2` is `x * x` -/", ""]
     for prefix, d, var in (('ch', ch, 'tt'), ('sd', sd, 'period')):
         for cls in ('C', 'D', 'E'):
             branches, els = d[cls]
-            text.append(f"def {prefix}{cls} (pow34 : α → α) ({var} : α) : α :=")
+            text.append(f"noncomputable def {prefix}{cls} (pow34 : ℝ → ℝ) ({var} : ℝ) : ℝ :=")
             for i, (c, e) in enumerate(branches):
-                text.append(f"  {'if' if i == 0 else 'else if'} {c} then {strip_outer(e)}")
+                text.append(f"  {'if' if i == 0 else 'else if'} {c.replace('==', '=')} then {strip_outer(e)}")
             text.append(f"  else {strip_outer(els)}")
             text.append("")
     text += [f"end EqsigVerif.{ns}.DesignSpectra", ""]
